@@ -1181,3 +1181,261 @@ U_FORMULA_KINDS = [Unit("formula(%s)" % k, FORMULAS + ".formula", _fk_inputs(k),
                         inline={CORE + ".isatom", FORMULAS + "._is_string_like"},
                         replay={"module": "c02", "task": "replay"})
                    for k in ("none", "empty-string", "atom", "dict", "sequence")]
+
+
+# ==============================================================================  _immutable (general recursion)
+
+IMM = z3.Function("immutable_of", T.Seq, T.Seq)
+
+
+def imm_facts(st, s, x):
+    """contract of _immutable on a sub-structure, at atom x: same composition, a tuple"""
+    st.assume(z3.And(T.DEN(IMM(s), x) == T.DEN(s, x), T.SUP(IMM(s), x) == T.SUP(s, x), T.SISTUPLE(IMM(s)),
+                     T.SLEN(IMM(s)) == T.SLEN(s), T.DEPTH(IMM(s)) >= 0))
+
+
+def c_immutable_rec(interp, st, args, kw):
+    """_immutable(fragment) at the recursive call site: an atom is returned as is; a sub-structure becomes
+    the tuple structure immutable_of(sub) with the same composition; the measure depth decreases"""
+    v = args[0]
+    if isinstance(v, VSym) and isinstance(v.theory, T.FragTheory):
+        f = v.expr
+        measure = st.ghost.get("decreases")
+        if measure is not None:
+            st.oblige("recursion.decreases", z3.Implies(T.Frag.is_fgroup(f), z3.And(T.DEPTH(T.Frag.seq_of(f)) < measure,
+                                                                                   T.DEPTH(T.Frag.seq_of(f)) >= 0)), kind="pre")
+        out = z3.If(T.Frag.is_fatom(f), f, T.Frag.fgroup(IMM(T.Frag.seq_of(f))))
+        return VSym(out, v.theory)
+    raise Unsupported("_immutable callee contract on %r" % type(v).__name__)
+
+
+def _imm_define(interp, st, rec):
+    """R_j = (count_j + 0, _immutable(fragment_j))"""
+    val = rec["value"]
+    if not (isinstance(val, VTuple) and len(val.items) == 2 and isinstance(val.items[1], VSym)):
+        raise Unsupported("element of the _immutable comprehension is not a (count, fragment) pair")
+    R, j = rec["R"], rec["j"]
+    st.assume(z3.And(T.SCOUNT(R, j) == to_real(val.items[0]), T.SFRAG(R, j) == val.items[1].expr))
+
+
+def _imm2_inputs(st, interp):
+    use_state(st)
+    s = SEQS.new(st, "seq")
+    st.ghost["decreases"] = T.DEPTH(s.expr)
+    st.ghost["comp_define"] = _imm_define
+    st.ghost["seq_theory"] = SEQS
+    # a well-formed structure: counts are numbers (count+0 is the count); fragments are atoms or structures
+    return [s], {}, {"S": s.expr}
+
+
+def _imm2_post(st, interp, C, res):
+    if res.outcome == "raise":
+        st.oblige("never-raises on a well-formed structure", False, kind="raises", info={"exc": res.exc})
+        return
+    r = res.value
+    comps = st.ghost.get("comprehensions", [])
+    ok = isinstance(r, VSym) and isinstance(r.theory, T.SeqTheory) and len(comps) == 1 and z3.eq(r.expr, comps[0]["R"])
+    st.oblige("post.returns the mapped sequence", z3.BoolVal(bool(ok)))
+    if not ok:
+        return
+    st.oblige("post.the result is a tuple", z3.BoolVal(getattr(r, "kind", None) == "tuple"))
+    R, S, j = comps[0]["R"], C["S"], comps[0]["j"]
+    x = st.fresh("x_sk", T.Atom)
+    sub = T.Frag.seq_of(T.SFRAG(S, j))
+    imm_facts(st, sub, x)
+    st.oblige("post.entry j keeps its count", T.SCOUNT(R, j) == T.SCOUNT(S, j))
+    st.oblige("post.entry j keeps its contribution to every atom (atoms as is, groups by the recursive contract)",
+              z3.And(T.contrib(T.SFRAG(R, j), x) == T.contrib(T.SFRAG(S, j), x),
+                     T.occurs(T.SFRAG(R, j), x) == T.occurs(T.SFRAG(S, j), x)))
+    st.oblige("post.entry j is an atom or a tuple structure",
+              z3.Or(T.Frag.is_fatom(T.SFRAG(R, j)), T.SISTUPLE(T.Frag.seq_of(T.SFRAG(R, j)))))
+    st.oblige("post.same length", T.SLEN(R) == T.SLEN(S))
+
+
+U_IMMUTABLE_REC = Unit("_immutable[any structure]", FORMULAS + "._immutable", _imm2_inputs, _imm2_post,
+                       contracts={FORMULAS + "._immutable": c_immutable_rec}, inline={CORE + ".isatom"},
+                       replay={"module": "c02", "task": "replay"},
+                       doc="with lemma denote.congruence: den(_immutable(s)) == den(s) for every structure")
+
+
+def lemma_den_congruence():
+    """two structures of equal length whose entries have equal counts and equal contributions denote
+    the same composition (prefix induction)"""
+    A, B = z3.Const("A", T.Seq), z3.Const("B", T.Seq)
+    x = z3.Const("x", T.Atom)
+    i = z3.Int("i")
+
+    def hyp(st):
+        st.assume(z3.And(SEQS.wf(A), SEQS.wf(B), T.SLEN(A) == T.SLEN(B)))
+        k = z3.Int("k!cong")
+        st.assume(z3.ForAll([k], z3.Implies(z3.And(k >= 0, k < T.SLEN(A)),
+                                            z3.And(T.SCOUNT(A, k) == T.SCOUNT(B, k),
+                                                   T.contrib(T.SFRAG(A, k), x) == T.contrib(T.SFRAG(B, k), x),
+                                                   T.occurs(T.SFRAG(A, k), x) == T.occurs(T.SFRAG(B, k), x)))))
+    states = []
+    st = State()
+    hyp(st)
+    SEQS.base_prefix(st, A, x)
+    SEQS.base_prefix(st, B, x)
+    st.oblige("base", z3.And(T.DENP(A, 0, x) == T.DENP(B, 0, x), T.SUPP(A, 0, x) == T.SUPP(B, 0, x)), kind="lemma")
+    states.append(st)
+    st = State()
+    hyp(st)
+    st.assume(z3.And(i >= 0, i < T.SLEN(A)))
+    st.assume(z3.And(T.DENP(A, i, x) == T.DENP(B, i, x), T.SUPP(A, i, x) == T.SUPP(B, i, x)))
+    SEQS.unfold_prefix(st, A, i, x)
+    SEQS.unfold_prefix(st, B, i, x)
+    st.oblige("step", z3.And(T.DENP(A, i + 1, x) == T.DENP(B, i + 1, x), T.SUPP(A, i + 1, x) == T.SUPP(B, i + 1, x)), kind="lemma")
+    states.append(st)
+    st = State()
+    hyp(st)
+    SEQS.whole(st, A, x)
+    SEQS.whole(st, B, x)
+    st.assume(z3.And(T.DENP(A, T.SLEN(A), x) == T.DENP(B, T.SLEN(A), x), T.SUPP(A, T.SLEN(A), x) == T.SUPP(B, T.SLEN(A), x)))
+    st.oblige("conclusion", z3.And(T.DEN(A, x) == T.DEN(B, x), T.SUP(A, x) == T.SUP(B, x)), kind="lemma")
+    states.append(st)
+    return states
+
+
+L_DEN_CONGRUENCE = Lemma("denote.congruence", lemma_den_congruence)
+
+
+# ==============================================================================  _convert_to_hill_notation
+
+KeyList = z3.DeclareSort("KeyList")
+LLEN = z3.Function("klist_len", KeyList, z3.IntSort())
+LITEM = z3.Function("klist_item", KeyList, z3.IntSort(), T.Atom)
+INPRE = z3.Function("klist_in_prefix", KeyList, z3.IntSort(), T.Atom, z3.BoolSort())
+
+
+class KeyListTheory:
+    """sorted(M.keys(), key=...) (A3): a duplicate-free list of exactly the keys of M, in key order.
+    Only the permutation part is used here (the order is the subject of the eval family order_total)."""
+    name = "KeyList"
+
+    def __init__(self, m):
+        self.m = m
+
+    def len(self, interp, st, v):
+        return LLEN(v.expr)
+
+    def item(self, interp, st, v, j):
+        a = LITEM(v.expr, j)
+        st.assume(z3.Select(self.m.dom, a))                 # every listed item is a key
+        st.assume(z3.Not(INPRE(v.expr, j, a)))              # no duplicates
+        return ATOMS.sym(st, a)
+
+    def truth(self, interp, st, v):
+        return st.branch(LLEN(v.expr) > 0)
+
+    def equals(self, interp, st, a, b):
+        return a is b
+
+    def comprehension(self, interp, st, fr, elt, g, it):
+        return T.seq_comprehension(interp, st, fr, elt, g, it)
+
+
+def _sorted_keys(interp, st, view, kw):
+    if view.what != "keys":
+        raise Unsupported("sorted() of items/values")
+    key = kw.get("key")
+    st.ghost["sorted_key_fn"] = key
+    L = st.fresh("sorted_keys", KeyList)
+    st.assume(LLEN(L) >= 0)
+    st.ghost["klist"] = (L, view.m)
+    return VSym(L, KeyListTheory(view.m))
+
+
+def _hill_define(interp, st, rec):
+    val = rec["value"]
+    if not (isinstance(val, VTuple) and len(val.items) == 2 and isinstance(val.items[1], VSym)):
+        raise Unsupported("element of the Hill comprehension is not a (count, atom) pair")
+    R, j = rec["R"], rec["j"]
+    st.assume(z3.And(T.SCOUNT(R, j) == to_real(val.items[0]), T.SFRAG(R, j) == T.Frag.fatom(val.items[1].expr)))
+
+
+def _hn_inputs(st, interp):
+    use_state(st)
+    dom = st.fresh("atoms_dom", z3.ArraySort(T.Atom, z3.BoolSort()))
+    val = st.fresh("atoms_val", z3.ArraySort(T.Atom, z3.RealSort()))
+    m = atoms_map(dom, val)
+    st.ghost["sorted_keys"] = _sorted_keys
+    st.ghost["comp_define"] = _hill_define
+    st.ghost["seq_theory"] = SEQS
+    return [m], {}, {"m": m}
+
+
+def _hn_post(st, interp, C, res):
+    if res.outcome == "raise":
+        st.oblige("never-raises", False, kind="raises", info={"exc": res.exc})
+        return
+    r, m = res.value, C["m"]
+    comps = st.ghost.get("comprehensions", [])
+    ok = isinstance(r, VSym) and len(comps) == 1 and z3.eq(r.expr, comps[0]["R"]) and "klist" in st.ghost
+    st.oblige("post.returns one entry per sorted key", z3.BoolVal(bool(ok)))
+    if not ok:
+        return
+    L, mm = st.ghost["klist"]
+    st.oblige("post.sorted() is applied to the keys of the given map with _hill_key as the key function",
+              z3.BoolVal(mm is m and isinstance(st.ghost.get("sorted_key_fn"), VFunc)
+                         and st.ghost["sorted_key_fn"].qualname == FORMULAS + "._hill_key"))
+    R, j = comps[0]["R"], comps[0]["j"]
+    st.oblige("post.the structure is a tuple (formulas compare equal only with tuple structures)",
+              z3.BoolVal(getattr(r, "kind", None) == "tuple"))
+    st.oblige("post.entry j is (count of key j, key j)",
+              z3.And(T.SCOUNT(R, j) == z3.Select(m.val, LITEM(L, j)), T.SFRAG(R, j) == T.Frag.fatom(LITEM(L, j))))
+    st.oblige("post.same length as the key list", T.SLEN(R) == LLEN(L))
+
+
+from pyvc.values import VFunc  # noqa
+U_HILL_NOTATION = Unit("_convert_to_hill_notation", FORMULAS + "._convert_to_hill_notation", _hn_inputs, _hn_post,
+                       replay={"module": "c19", "task": "replay"},
+                       doc="with lemma denote.permutation: the Hill structure denotes exactly the given atom map")
+
+
+def lemma_den_permutation():
+    """a structure listing (M[a], a) for the items a of a duplicate-free list of exactly the keys of M
+    denotes M: den(R, x) == M.get(x, 0), sup(R, x) == (x in M)   (prefix induction)"""
+    R, L = z3.Const("R", T.Seq), z3.Const("L", KeyList)
+    dom = z3.Const("dom", z3.ArraySort(T.Atom, z3.BoolSort()))
+    val = z3.Const("val", z3.ArraySort(T.Atom, z3.RealSort()))
+    x = z3.Const("x", T.Atom)
+    i = z3.Int("i")
+    n = LLEN(L)
+
+    def hyp(st):
+        k = z3.Int("k!perm")
+        a = z3.Const("a!perm", T.Atom)
+        st.assume(z3.And(SEQS.wf(R), n >= 0, T.SLEN(R) == n))
+        st.assume(z3.ForAll([k], z3.Implies(z3.And(k >= 0, k < n),
+                                            z3.And(T.SCOUNT(R, k) == z3.Select(val, LITEM(L, k)),
+                                                   T.SFRAG(R, k) == T.Frag.fatom(LITEM(L, k)),
+                                                   z3.Not(INPRE(L, k, LITEM(L, k))), z3.Select(dom, LITEM(L, k))))))
+        # definition of prefix membership
+        st.assume(z3.ForAll([a], z3.Not(INPRE(L, 0, a))))
+        st.assume(z3.ForAll([k, a], z3.Implies(k >= 0, INPRE(L, k + 1, a) == z3.Or(INPRE(L, k, a), LITEM(L, k) == a))))
+    states = []
+    st = State()
+    hyp(st)
+    SEQS.base_prefix(st, R, x)
+    st.oblige("base", z3.And(T.DENP(R, 0, x) == z3.If(INPRE(L, 0, x), z3.Select(val, x), 0), T.SUPP(R, 0, x) == INPRE(L, 0, x)), kind="lemma")
+    states.append(st)
+    st = State()
+    hyp(st)
+    st.assume(z3.And(i >= 0, i < n))
+    st.assume(z3.And(T.DENP(R, i, x) == z3.If(INPRE(L, i, x), z3.Select(val, x), 0), T.SUPP(R, i, x) == INPRE(L, i, x)))
+    SEQS.unfold_prefix(st, R, i, x)
+    st.oblige("step", z3.And(T.DENP(R, i + 1, x) == z3.If(INPRE(L, i + 1, x), z3.Select(val, x), 0),
+                             T.SUPP(R, i + 1, x) == INPRE(L, i + 1, x)), kind="lemma")
+    states.append(st)
+    st = State()
+    hyp(st)
+    SEQS.whole(st, R, x)
+    st.assume(z3.And(T.DENP(R, n, x) == z3.If(INPRE(L, n, x), z3.Select(val, x), 0), T.SUPP(R, n, x) == INPRE(L, n, x)))
+    st.assume(INPRE(L, n, x) == z3.Select(dom, x))        # sorted() lists exactly the keys (A3)
+    st.oblige("conclusion", z3.And(T.DEN(R, x) == z3.If(z3.Select(dom, x), z3.Select(val, x), 0), T.SUP(R, x) == z3.Select(dom, x)), kind="lemma")
+    states.append(st)
+    return states
+
+
+L_DEN_PERMUTATION = Lemma("denote.permutation", lemma_den_permutation)
